@@ -65,7 +65,7 @@ func checkFormatted(e *Event, ks, vs [2]string, n int, jsonSet bool, want string
 	}
 	v, ok := e.Format(JSONFormat)
 	if jsonSet {
-		verifAssert(ok && string(v) == want, tag+".json-is-faithful-encoding")
+		verifAssert(ok && verifJSONEquivalent(string(v), want), tag+".json-is-faithful-encoding")
 	}
 }
 
